@@ -90,6 +90,9 @@ end
 rule "reader" salience -9 begin
   probe3(Shared.V)
 end
+rule "opt" salience -12 begin
+  Opt = 7
+end
 rule "keeper" salience -10 begin
   kept = Shared.Tags
   Shared.Tags = Shared.Tags2
@@ -239,6 +242,20 @@ end
 				map[string]interface{}{"rule_text": text})
 		}
 		shared.Tags, shared.Tags2 = []int64{11, 12}, []int64{21, 22, 23}
+		// Opt was a rule local in every call so far; now the caller injects it (an optional in/out parameter):
+		// the same assignment stores through the injected pointer, and stops doing so once it is removed again
+		opt := new(int64)
+		dc.Add("Opt", opt)
+		eng.ExecuteSelectedRules(rb, []string{"opt"})
+		if *opt != 7 {
+			k.Violate("injected-name-was-a-local-before", fmt.Sprintf("`Opt = 7` ran with Opt injected as a pointer (it was a rule local in the earlier calls): the host sees %d", *opt), map[string]interface{}{"rule_text": text})
+		}
+		*opt = 0
+		dc.Del("Opt")
+		eng.ExecuteSelectedRules(rb, []string{"opt"})
+		if *opt != 0 {
+			k.Violate("injected-name-was-a-local-before", fmt.Sprintf("after Opt was removed again the rule still stored through the old pointer: %d", *opt), map[string]interface{}{"rule_text": text})
+		}
 		eng.ExecuteSelectedRulesWithControlAsGivenSortedName(rb, true, []string{"writer", "reader"})
 		mu.Lock()
 		got := append([]int64{}, seen3...)
